@@ -256,6 +256,11 @@ class TB:
             return ("c", k["v"])
         if k.get("deref_v") is not None:
             return ("ref", ("c", k["deref_v"]))
+        if k.get("deref_const") is not None:
+            d = k["deref_const"]
+            if "variant" in d:
+                return ("ref", ("cs", d.get("val_s"), d["variant"], tuple(f.get("v") for f in d.get("fields", []))))
+            return ("ref", ("cs", d.get("val_s")))
         if "variant" in k:
             return ("cs", k.get("val_s") or k.get("s"), k["variant"],
                     tuple(f.get("v") for f in k.get("fields", [])))
